@@ -9,3 +9,79 @@ package gossipval
 //@   opt pure_func=slotAfter
 //@   ensures nowrap: slot + span >= 18446744073709551616 ==> err != nil
 //@   ensures window: slot + span < 18446744073709551616 ==> (err == nil <==> (slot + span >= slotAfter(-MAXIMUM_GOSSIP_CLOCK_DISPARITY) && slot <= slotAfter(MAXIMUM_GOSSIP_CLOCK_DISPARITY)))
+
+// ---------------------------------------------------------------- back-end models (assumed), C12
+//
+// The validators see the node through small interfaces.  Queries are modelled
+// as uninterpreted functions of a ghost version of the node's view (gvver);
+// Mark* calls advance the version and are counted, so "marked only on ACCEPT"
+// is a statement about the counters.
+
+//@ ghost gvver int
+//@ ghost n_mark_exit int
+//@ ghost last_mark_exit int
+//@ ghost n_mark_pslash int
+//@ ghost last_mark_pslash int
+//@ sort SpecP = *common.Spec
+//@ sort EpcP = *common.EpochsContext
+//@ sort StateI = common.BeaconState
+//@ sort BackendI = Spec
+//@ sort VIdx = common.ValidatorIndex
+//@ ufun gv_spec(BackendI) SpecP
+//@ ufun gv_head_err(int) bool
+//@ ufun gv_head_epc(int) EpcP
+//@ ufun gv_head_state(int) StateI
+//@ ufun gv_seen_exit(int, VIdx) bool
+//@ ufun gv_seen_pslash(int, VIdx) bool
+
+//@ func (s Spec) Spec() r
+//@   trusted
+//@   opt noalloc
+//@   ensures r == gv_spec(s) && r != nil
+
+//@ func (h HeadInfo) HeadInfo(ctx) (entry, epc, state, err)
+//@   trusted
+//@   opt noalloc
+//@   ensures (err != nil) == gv_head_err(gvver)
+//@   ensures err == nil ==> epc == gv_head_epc(gvver) && state == gv_head_state(gvver) && epc != nil && state != nil
+
+//@ func (b VoluntaryExitValBackend) SeenExit(index) r
+//@   trusted
+//@   opt noalloc
+//@   ensures r == gv_seen_exit(gvver, index)
+
+//@ func (b VoluntaryExitValBackend) MarkExit(index)
+//@   trusted
+//@   opt noalloc
+//@   assigns ghost(gvver), ghost(n_mark_exit), ghost(last_mark_exit)
+//@   ensures n_mark_exit == old(n_mark_exit) + 1 && last_mark_exit == index
+
+// voluntary_exit topic: I first exit for the validator; R process_voluntary_exit's conditions;
+// head information unavailable -> IGNORE; marked iff ACCEPT.
+//@ func ValidateVoluntaryExit(ctx, volExit, exitVal) res
+//@   property C12
+//@   requires volExit != nil && exitVal != nil
+//@   assigns ghost(gvver), ghost(n_mark_exit), ghost(last_mark_exit)
+//@   ensures accept: res.Result == ACCEPT <==> (!gv_seen_exit(old(gvver), volExit.Message.ValidatorIndex) && !gv_head_err(old(gvver)) && exit_ok(gv_spec(exitVal), gv_head_epc(old(gvver)), gv_head_state(old(gvver)), *volExit))
+//@   ensures reject: res.Result == REJECT ==> !gv_seen_exit(old(gvver), volExit.Message.ValidatorIndex) && !gv_head_err(old(gvver)) && !exit_ok(gv_spec(exitVal), gv_head_epc(old(gvver)), gv_head_state(old(gvver)), *volExit)
+//@   ensures marks: n_mark_exit == old(n_mark_exit) + ite(res.Result == ACCEPT, 1, 0) && (res.Result == ACCEPT ==> last_mark_exit == volExit.Message.ValidatorIndex) && (res.Result != ACCEPT ==> gvver == old(gvver))
+//@   ensures err: (res.Result == ACCEPT) == (res.Err == nil)
+
+//@ func (b ProposerSlashingValBackend) SeenProposerSlashing(proposer) r
+//@   trusted
+//@   opt noalloc
+//@   ensures r == gv_seen_pslash(gvver, proposer)
+
+//@ func (b ProposerSlashingValBackend) MarkProposerSlashing(index)
+//@   trusted
+//@   opt noalloc
+//@   assigns ghost(gvver), ghost(n_mark_pslash), ghost(last_mark_pslash)
+//@   ensures n_mark_pslash == old(n_mark_pslash) + 1 && last_mark_pslash == index
+
+//@ func ValidateProposerSlashing(ctx, propSl, propSlVal) res
+//@   property C12
+//@   requires propSl != nil && propSlVal != nil
+//@   assigns ghost(gvver), ghost(n_mark_pslash), ghost(last_mark_pslash)
+//@   ensures accept: res.Result == ACCEPT <==> (!gv_seen_pslash(old(gvver), propSl.SignedHeader1.Message.ProposerIndex) && !gv_head_err(old(gvver)) && pslash_ok(gv_spec(propSlVal), gv_head_epc(old(gvver)), gv_head_state(old(gvver)), *propSl))
+//@   ensures reject: res.Result == REJECT ==> !pslash_nosig_ok(gv_spec(propSlVal), *propSl) || (!gv_seen_pslash(old(gvver), propSl.SignedHeader1.Message.ProposerIndex) && !gv_head_err(old(gvver)) && !pslash_ok(gv_spec(propSlVal), gv_head_epc(old(gvver)), gv_head_state(old(gvver)), *propSl))
+//@   ensures marks: n_mark_pslash == old(n_mark_pslash) + ite(res.Result == ACCEPT, 1, 0) && (res.Result == ACCEPT ==> last_mark_pslash == propSl.SignedHeader1.Message.ProposerIndex) && (res.Result != ACCEPT ==> gvver == old(gvver))
